@@ -16,11 +16,13 @@ RULE = ("PolarMeasurements built directly: 1-12 radial x 1-12 azimuthal bins, ra
         "azimuthal sampling 2pi/n or {0.1,0.7,random}, radial offset from {0,1.4,0.3,10,random}, azimuthal offset from "
         "{0,0.3,pi/7,-0.5,random}, 0-3 ensemble axes (scan/ordinal/unknown, any order), eager or lazy with random chunks, float32 or "
         "float64 integer-valued data (negative values included); limits are bin edges spelled offset+k*sampling, linspace edge or "
-        "repeated addition; non-trivial = at least 2 bins along an axis that gets limits and limits that select a proper subset; "
+        "repeated addition; lazy arrays are chunked along ensemble axes and along the radial / azimuthal / both bin axes; 35 % of the "
+        "cases are followed in the same process by a twin that differs in one parameter (offsets moved by whole bins under "
+        "numerically identical limits, data, radial sampling, azimuthal offset); non-trivial = at least 2 bins along an axis that gets limits and limits that select a proper subset; "
         "distinct = distinct case signature")
 CLAUSES = ["radial-limits", "azimuthal-limits", "both-limits", "no-limits-total", "partition-radial", "partition-azimuthal",
-           "detector-regions", "result-type"]
-QUICK = dict(n=900, time=40)
+           "detector-regions", "result-type", "history"]
+QUICK = dict(n=700, time=40)
 THOROUGH = dict(n=40000, time=240, shards=16)
 ASSUMPTIONS = ["only limits aligned with bin edges are judged (the property's quantifier); limits beyond the binned range are not generated"]
 
@@ -48,8 +50,23 @@ def gen(rng, tier):
     acuts = sorted(set([0, na] + rng.integers(0, na + 1, size=int(rng.integers(0, 4))).tolist()))
     nreg = int(rng.integers(1, min(nr * na, 6) + 1))
     regions = rng.choice(nr * na, size=nreg, replace=False).tolist()
+    lazy = bool(rng.random() < 0.3)
+    then = []
+    if rng.random() < 0.35:
+        # history: a second measurement in the same process that differs in exactly one parameter
+        k = int(rng.integers(0, 4))
+        if k == 0:
+            # offsets moved by whole bins while the numeric limits stay the same: other bins lie inside the same limits
+            then.append({"shift": [int(rng.integers(-a, nr - b + 1)), int(rng.integers(-c, na - d + 1))]})
+        elif k == 1:
+            then.append({"seed": int(rng.integers(0, 2 ** 31))})
+        elif k == 2:
+            then.append({"rs": _pick(rng, [0.1, 0.7, 1.0, 0.25, 1.0 / 3.0, 2.5], 0.05, 4.0)})
+        else:
+            then.append({"aoff": _pick(rng, [0.0, 0.3, np.pi / 7, -0.5], -np.pi, np.pi)})
     return {"nr": nr, "na": na, "rs": rs, "asamp": asamp, "roff": roff, "aoff": aoff, "axes": spec,
-            "lazy": bool(rng.random() < 0.3), "chunks": [int(rng.integers(1, 4)) for _ in spec],
+            "lazy": lazy, "chunks": [int(rng.integers(1, 4)) for _ in spec],
+            "base_chunks": (L.rand_base_chunks(rng, (nr, na)) if lazy else None), "then": then,
             "dtype": str(rng.choice(["float32", "float64"])), "seed": int(rng.integers(0, 2 ** 31)),
             "form": str(rng.choice(["mul", "coords", "accum"])),
             "radial": [int(a), int(b)], "azimuthal": [int(c), int(d)], "rcuts": [int(x) for x in rcuts],
@@ -77,14 +94,27 @@ def _build(case):
     big = 2 ** 10 if case["dtype"] == "float32" else 2 ** 36
     data = rng.integers(-big, big + 1, size=shape).astype(case["dtype"])
     asamp = 2 * np.pi / case["na"] if case["asamp"]["kind"] == "natural" else case["asamp"]["v"]
-    arr = L.chunk_array(data, case["chunks"]) if case["lazy"] else data.copy()
-    pm = PolarMeasurements(arr, radial_sampling=case["rs"], azimuthal_sampling=asamp, radial_offset=case["roff"],
-                           azimuthal_offset=case["aoff"], ensemble_axes_metadata=L.make_axes(case["axes"]))
+    arr = L.chunk_array(data, case["chunks"], base_chunks=case.get("base_chunks")) if case["lazy"] else data.copy()
+    mr, ma = case.get("shift", [0, 0])
+    pm = PolarMeasurements(arr, radial_sampling=case["rs"], azimuthal_sampling=asamp, radial_offset=case["roff"] - mr * case["rs"],
+                           azimuthal_offset=case["aoff"] - ma * asamp, ensemble_axes_metadata=L.make_axes(case["axes"]))
     return pm, data.astype(np.float64), asamp
 
 
 def check(ctx, case):
+    for i, step in enumerate(L.steps_of(case)):
+        if i:
+            ctx.monitor("history-steps")
+            ctx.clauses["history"] += 1      # judged by the regular clauses
+        _one(ctx, step)
+
+
+def _one(ctx, case):
     pm, data, asamp = _build(case)
+    if case["lazy"] and case.get("base_chunks"):
+        ctx.monitor("lazy-base-axes-chunked")
+    # bins by which the measurement's offsets were moved while the numeric limits stay those of the unshifted axes
+    mr, ma = case.get("shift", [0, 0])
     spec = case["axes"]
     nr, na, form = case["nr"], case["na"], case["form"]
     a, b = case["radial"]
@@ -97,6 +127,10 @@ def check(ctx, case):
         return (edge(case["aoff"], asamp, na, i, form), edge(case["aoff"], asamp, na, j, form))
 
     def want(rsl, asl):
+        if rsl.start is not None:
+            rsl = slice(rsl.start + mr, rsl.stop + mr)
+        if asl.start is not None:
+            asl = slice(asl.start + ma, asl.stop + ma)
         return L.to_reduced(data[..., rsl, asl].sum(axis=(-2, -1)), spec)
 
     def run(clause, **kw):
@@ -127,6 +161,9 @@ def check(ctx, case):
         got = L.as_numpy(pm.integrate_radial(*rl(a, b)))
         ctx.equal(got.astype(np.float64), want(slice(a, b), slice(None)), "radial-limits", via="integrate_radial")
 
+    if mr or ma:
+        ctx.nontrivial(nr >= 2 and na >= 2)
+        return
     # partitions of the whole range sum to the whole integral
     total = want(slice(None), slice(None))
     acc = np.zeros_like(np.asarray(total, dtype=np.float64))
@@ -152,7 +189,8 @@ def check(ctx, case):
 
 
 def fixed_cases(tier):
-    base = {"axes": [], "lazy": False, "chunks": [], "dtype": "float64", "seed": 7, "form": "mul", "scalar_region": False}
+    base = {"axes": [], "lazy": False, "chunks": [], "dtype": "float64", "seed": 7, "form": "mul", "scalar_region": False,
+            "base_chunks": None, "then": []}
     out = []
     # the aligned limit 1.4 + 0.7*6 whose quotient (limit-offset)/sampling is 5.999...
     out.append(dict(base, nr=8, na=6, rs=0.7, asamp={"kind": "natural"}, roff=1.4, aoff=0.0, radial=[2, 6], azimuthal=[1, 4],
@@ -164,4 +202,8 @@ def fixed_cases(tier):
                     rcuts=[0, 1], acuts=[0, 1], regions=[0], axes=[{"k": "O", "n": 2}, {"k": "S", "n": 3}], lazy=True, chunks=[1, 2]))
     out.append(dict(base, nr=12, na=7, rs=0.1, asamp={"kind": "value", "v": 0.7}, roff=0.3, aoff=float(np.pi / 7), radial=[3, 12],
                     azimuthal=[0, 7], rcuts=[0, 7, 12], acuts=[0, 1, 2, 7], regions=[1, 2, 3], form="coords"))
+    # lazy measurement split along both bin axes, followed by a twin whose offsets are moved by whole bins
+    out.append(dict(base, nr=9, na=8, rs=0.7, asamp={"kind": "natural"}, roff=1.4, aoff=0.3, radial=[2, 6], azimuthal=[1, 4],
+                    rcuts=[0, 4, 9], acuts=[0, 3, 8], regions=[3, 70], axes=[{"k": "S", "n": 3}], lazy=True, chunks=[2], base_chunks=[4, 3],
+                    then=[{"shift": [3, -1]}, {"shift": [-2, 4]}]))
     return out
